@@ -44,6 +44,15 @@ type Mutation { m1: Obj m2: Obj m3: Int m4: [Obj] m5: Int! }
 type Subscription { ev: Obj tick: Int }
 """
 
+# root types with exactly one field (shortcuts keyed on the shape of the schema, not of the request)
+SDL_SINGLE = """
+type Obj { id: ID x: Int y: Int! o: Obj l: [Obj] }
+type Query { o(id: Int): Obj }
+type Mutation { m1(id: Int): Obj }
+type Subscription { ev: Obj }
+"""
+SDLS = {"full": SDL, "single": SDL_SINGLE}
+
 OBJ3 = {"__typename__": "Obj", "id": "3", "x": 30, "y": 31, "o": None, "l": []}
 OBJ2 = {"__typename__": "Obj", "id": "2", "x": 20, "y": 21, "o": OBJ3, "l": [OBJ3]}
 OBJ1 = {"__typename__": "Obj", "id": "1", "x": 10, "y": 11, "o": OBJ2, "l": [OBJ2, OBJ3]}
@@ -154,11 +163,11 @@ def _mk_nested_async(coord):
 _SCHEMAS = {}
 
 
-def schema_for(custom, asyncio_styles):
-    key = (json.dumps(custom, sort_keys=True), asyncio_styles)
+def schema_for(custom, asyncio_styles, sdl="full"):
+    key = (json.dumps(custom, sort_keys=True), asyncio_styles, sdl)
     s = _SCHEMAS.get(key)
     if s is None:
-        s = build_schema(SDL)
+        s = build_schema(SDLS[sdl])
         for coord in sorted(custom):
             style = custom[coord]
             t, f = coord.split(".")
@@ -256,14 +265,15 @@ _DOCS = {}
 def prepared(scn):
     """parse + validate once per query text; later executions reuse the AST and skip re-validation."""
     q = scn["query"]
-    d = _DOCS.get(q)
+    sdl = scn.get("sdl", "full")
+    d = _DOCS.get((q, sdl))
     if d is None:
         from py_gql.lang import parse
         from py_gql.validation import validate_ast
 
         ast = parse(q)
-        errs = validate_ast(schema_for({}, False), ast).errors
-        d = _DOCS[q] = (ast, [str(e) for e in errs])
+        errs = validate_ast(schema_for({}, False, sdl), ast).errors
+        d = _DOCS[(q, sdl)] = (ast, [str(e) for e in errs])
     return d
 
 
@@ -304,7 +314,7 @@ def run_config(config, scn, ch, document=None, fast=False):
             kwargs["validators"] = []
     extra = {}
     if config in ("blocking-opt", "blocking-gen"):
-        schema = schema_for(custom, False)
+        schema = schema_for(custom, False, scn.get("sdl", "full"))
         try:
             res = process_graphql_query(
                 schema, doc, executor_cls=BlockingExecutor if config == "blocking-opt" else Executor,
@@ -314,7 +324,7 @@ def run_config(config, scn, ch, document=None, fast=False):
         except Exception as e:  # noqa
             status, value = "exc", e
     elif config in ("asyncio-thr", "asyncio-inl"):
-        schema = schema_for(custom, True)
+        schema = schema_for(custom, True, scn.get("sdl", "full"))
         loop = VLoop()
         world.loop = loop
         rt = AsyncIORuntime(loop=loop, execute_blocking_functions_in_thread=(config == "asyncio-thr"))
@@ -329,7 +339,7 @@ def run_config(config, scn, ch, document=None, fast=False):
         extra["unhandled"] = len(loop.unhandled)
         extra["trace"] = loop.trace
     elif config == "threadpool":
-        schema = schema_for(custom, False)
+        schema = schema_for(custom, False, scn.get("sdl", "full"))
         pool = CtlPool()
         rt = ThreadPoolRuntime(max_workers=1)
         rt._inner.shutdown(wait=False)
